@@ -187,6 +187,15 @@ def exhaustive_small(limit=None):
     return out
 
 
+def structured_param_sets():
+    """AVC parameter sets with byte patterns a 'helpful' muxer might interpret: Annex B start codes (4- and 3-byte) at the front, in the middle and
+    as the whole value, emulation-prevention sequences, leading/trailing zeros, all-zero and all-ones values (hex strings, each at least 4 bytes so that
+    add_track accepts them as an SPS)"""
+    raw = [b"\0\0\0\1", b"\0\0\1\x67", b"\0\0\0\1\x67\x42\0\x1e", b"\0\0\1\x67\x64\0\x28\xac", b"\x67\x42\0\0\0\1\x1e\x99", b"\x67\0\0\3\0\x1e",
+           b"\0\0\0\0", b"\0\0\0\0\0\1\x67\x42", b"\xff\xff\xff\xff", b"\x67\x42\0\x1e\0\0", b"\0\0\1\0\0\1", b"\x68\0\0\1"]
+    return [r.hex() for r in raw]
+
+
 def random_history(rng, max_tracks=4, max_samples=120, bad=0.05):
     ntr = rng.randint(0, max_tracks)
     mts = rng.choice([1, 600, 1000, 90000, 65536, U32 - 1, rng.randint(1, U32 - 1)])
